@@ -195,6 +195,10 @@ func RunWorker(spec WorkerSpec) *WorkerResult {
 				res.Violations = append(res.Violations, v)
 				if v.Kind != "hang" && spec.ShrinkS > 0 {
 					found := v.World.Seed
+					// what has been found so far goes to disk first: a shrink candidate
+					// may kill the process outright (a fatal runtime error inside
+					// the library is not recoverable), and the finding must survive
+					WriteResult(res)
 					shrinking.Store(true)
 					shrinkTick = func() { markStart(&curStart) }
 					shrinkTick()
